@@ -296,7 +296,49 @@ def _d2_dbcheck(ctx):
     ctx.check(U(pm.match("M_m['instruction_forms']", loop.iter)["M_m"]) == f.params()[0], "D2",
               "entries counted are those of the arch model", f.where(loop),
               "the db-check loop does not iterate the arch model's instruction forms", f.qname, U(loop.iter))
+    # table-driven form: for key, lst in ((field, list), ...): if entry[key] is None: lst.append(entry)
+    table_loops = [n for n in ast.walk(loop) if isinstance(n, ast.For) and n is not loop and isinstance(n.iter, (ast.Tuple, ast.List))
+                   and isinstance(n.target, ast.Tuple) and len(n.target.elts) == 2]
+    handled = set()
+    for tl in table_loops:
+        rows = {}
+        for e in tl.iter.elts:
+            if isinstance(e, (ast.Tuple, ast.List)) and len(e.elts) == 2:
+                a0, a1 = e.elts
+                if isinstance(a0, ast.Constant) and isinstance(a1, ast.Name):
+                    rows[a1.id] = a0.value
+                elif isinstance(a1, ast.Constant) and isinstance(a0, ast.Name):
+                    rows[a0.id] = a1.value
+        kv = [U(x) for x in tl.target.elts]
+        for lst, field in pairs.items():
+            if lst not in rows:
+                continue
+            handled.add(lst)
+            keyvar = kv[0] if isinstance(tl.iter.elts[0].elts[0], ast.Constant) else kv[1]
+            lstvar = kv[1] if keyvar == kv[0] else kv[0]
+            apps = pm.find("%s.append(%s)" % (lstvar, entry), tl)
+            good = rows[lst] == field and len(apps) == 1
+            if good:
+                facts = C.facts_at(apps[0][0], stop=tl)
+                good = len(facts) == 1 and facts[0][1] and U(facts[0][0]) == "%s[%s] is None" % (entry, keyvar)
+            exits = [x for x in ast.walk(tl) if isinstance(x, (ast.Break, ast.Continue, ast.Return))]
+            if good and not exits:
+                ctx.ok("D2", "table row (%r -> %s): appended iff %s[%r] is None" % (field, lst, entry, field), f.where(tl))
+            elif good and exits:
+                ctx.node_bad("D2", f, tl, "the loop over (field, list) pairs leaves early (%s) after the first missing field: a "
+                             "form lacking two values is counted only once, so the later counts (%s ...) are smaller than the "
+                             "numbers actually present in the model file" % (
+                                 type(exits[0]).__name__.lower(), lst), instance="early exit in the (field, list) loop [%s]" % lst)
+            else:
+                ctx.node_bad("D2", f, tl, "%s must collect exactly the entries whose %r is None (table row says %r)" % (
+                    lst, field, rows.get(lst)), instance="table row for %s" % lst)
+            inits = [a for a in C.assigns_to(f.node, lst)]
+            ctx.check(len(inits) == 1 and U(inits[0].value) == "[]" and not C.enclosing_loops(inits[0]), "D2",
+                      "%s starts empty and is only appended to" % lst, f.where(inits[0]) if inits else f.where(),
+                      "%s is (re)assigned other than one initial []" % lst, f.qname, "init of " + lst)
     for lst, field in pairs.items():
+        if lst in handled:
+            continue
         apps = pm.find("%s.append(M_x)" % lst, loop)
         if len(apps) != 1:
             ctx.bad("D2", "append to %s" % lst, f.where(loop), "expected exactly one append to %s in the "
@@ -306,16 +348,24 @@ def _d2_dbcheck(ctx):
         facts = C.facts_at(n, stop=loop)
         want = "%s['%s'] is None" % (entry, field)
         good = U(b["M_x"]) == entry and len(facts) == 1 and U(facts[0][0]) == want and facts[0][1]
-        if good:
+        # the three tests must be independent statements (no elif chain / early exit between them)
+        st = C.cfg_of(f).node_of(n)
+        par = getattr(st, "_parent", None)
+        chained = isinstance(par, ast.If) and par not in loop.body
+        if good and not chained:
             ctx.node_ok("D2", f, n, "if %s: %s" % (want, U(n)))
         else:
-            ctx.node_bad("D2", f, n, "%s must collect exactly the entries whose %r is None (guards here: %s)"
-                         % (lst, field, [("" if p else "not ") + U(e) for e, p in facts]))
+            ctx.node_bad("D2", f, n, "%s must collect exactly the entries whose %r is None, independently of the other "
+                         "fields (guards here: %s%s)" % (lst, field, [("" if p else "not ") + U(e) for e, p in facts],
+                                                          "; part of an elif chain" if chained else ""))
         # initialised empty, not reassigned
         inits = [a for a in C.assigns_to(f.node, lst)]
         ctx.check(len(inits) == 1 and U(inits[0].value) == "[]" and not C.enclosing_loops(inits[0]), "D2",
                   "%s starts empty and is only appended to" % lst, f.where(inits[0]) if inits else f.where(),
                   "%s is (re)assigned other than one initial []" % lst, f.qname, "init of " + lst)
+    early = [x for x in ast.walk(loop) if isinstance(x, (ast.Break, ast.Return)) and C.enclosing_loop(x) is loop]
+    ctx.check(not early, "D2", "the entry loop visits every form", f.where(loop), "the entry loop can stop early (%s)" % [
+        type(x).__name__ for x in early], f.qname, "entry loop complete")
     rets = [n for n in ast.walk(f.node) if isinstance(n, ast.Return) and n.value is not None]
     if len(rets) != 1 or not isinstance(rets[0].value, ast.Tuple):
         ctx.broken("D2: _check_sanity_arch_db does not return one literal tuple")
